@@ -82,6 +82,18 @@ def _tz(pendulum, z):
     return t
 
 
+def _foreign_receivers(pendulum, z, x, x_f, x_o):
+    """The state x carried by tzinfo objects that are not pendulum timezones (same fields, fold and offset)."""
+    import zoneinfo
+    out = []
+    if isinstance(z, int):
+        out.append(("stdlib-timezone", z, pendulum.DateTime(*x_f, tzinfo=dt_.timezone(dt_.timedelta(seconds=z)))))
+    else:
+        out.append(("zoneinfo", z, pendulum.DateTime(*x_f, tzinfo=zoneinfo.ZoneInfo(z), fold=x.fold)))
+        out.append(("stdlib-timezone", x_o, pendulum.DateTime(*x_f, tzinfo=dt_.timezone(dt_.timedelta(seconds=x_o)))))
+    return [(n, fz, f) for n, fz, f in out if obs.offset_s(f) == x_o]
+
+
 def check_case(acc, pendulum, zname, inst, kw, variants=True):
     """One state x one amount: add, inverse, and the operator spellings."""
     A = _total_us(kw)
@@ -152,6 +164,20 @@ def check_case(acc, pendulum, zname, inst, kw, variants=True):
             if got != (exp_f, exp_o):
                 acc.mismatch("add", "constructed-receiver", dict(case, receiver_fold=1 - x.fold),
                              {"fields": got[0], "offset": got[1]}, {"fields": exp_f, "offset": exp_o})
+    if variants:
+        # receivers that carry a tzinfo which is not a pendulum timezone (raw constructor, fromisoformat(),
+        # astimezone(<stdlib tzinfo>)): same instant, same zone - the timezone must be kept
+        for fname, fz, fx in _foreign_receivers(pendulum, z, x, x_f, x_o):
+            want = obs.expected_render(fz, target) + ("DateTime",)
+            for name, fn in (("add", lambda: fx.add(**kw)), ("plus_td", lambda: fx + td)):
+                r = fn()
+                acc.c["evaluations"] += 1
+                acc.c["transitions"] += 1
+                got = (obs.fields(r), obs.offset_s(r), type(r).__name__)
+                if got != want:
+                    acc.mismatch(name, "foreign-tzinfo-receiver/" + fname, dict(case, receiver=fname),
+                                 {"fields": got[0], "offset": got[1], "type": got[2]},
+                                 {"fields": want[0], "offset": want[1], "type": "DateTime"})
     b = first.subtract(**kw)
     acc.c["evaluations"] += 1
     acc.c["transitions"] += 1
@@ -224,7 +250,8 @@ def replay_case(case, acc):
 
 def plan(tier, seed):
     thorough = tier == "thorough"
-    zones = list(seeds.all_zones()) + list(seeds.WITNESS_FIXED) + [None]
+    # fixed offsets include ones that are not whole minutes (what an LMT-style datetime.timezone converts to)
+    zones = list(seeds.all_zones()) + list(seeds.WITNESS_FIXED) + list(seeds.SUBMINUTE_FIXED) + [None]
     shards = [{"zones": ch, "thorough": thorough, "limit": 0 if thorough else 10, "seed": seed}
               for ch in seeds.chunks(zones, 64 if not thorough else 256)]
     if thorough:
